@@ -22,6 +22,8 @@ module N :
 
   val ltb : coq_N -> coq_N -> bool
 
+  val pow : coq_N -> coq_N -> coq_N
+
   val pos_div_eucl : positive -> coq_N -> coq_N * coq_N
 
   val div_eucl : coq_N -> coq_N -> coq_N * coq_N
@@ -30,7 +32,11 @@ module N :
 
   val modulo : coq_N -> coq_N -> coq_N
 
+  val coq_lor : coq_N -> coq_N -> coq_N
+
   val coq_land : coq_N -> coq_N -> coq_N
+
+  val to_nat : coq_N -> nat
 
   val eq_dec : coq_N -> coq_N -> bool
  end
